@@ -172,7 +172,7 @@ func c14Expand(seed uint32, n int) []byte {
 
 const (
 	c14Page       = 4096
-	c14WinMax     = 64 << 10
+	c14WinMax     = 128 << 10 // the size of the real BIOS search area (0xe0000-0xfffff)
 	c14ArenaPages = 64
 	c14RootAddrs  = 64 // spacing of the root addresses of valid structures that must not win
 )
@@ -1332,7 +1332,7 @@ func c14Gen(t *rapid.T, st *vlib.Stats) c14Case {
 	case 7:
 		c.Win = c14Page * rapid.IntRange(1, 16).Draw(t, "winpages")
 	case 8:
-		c.Win = c14WinMax
+		c.Win = rapid.SampledFrom([]int{c14WinMax, c14WinMax, 64 << 10, 64<<10 + 16, 64<<10 + 4096, 96 << 10}).Draw(t, "winsegs")
 	default:
 		c.Win = 16 * rapid.IntRange(1025, 4096).Draw(t, "winbig")
 	}
@@ -1410,6 +1410,9 @@ func c14Gen(t *rapid.T, st *vlib.Stats) c14Case {
 			if real.Slot > last {
 				real.Slot = last
 			}
+		case nslots > 4096 && cur <= 4093 && last >= 4096 && rapid.IntRange(0, 2).Draw(t, "atsegment") == 0:
+			// the structure ends at, or straddles, the 64 KiB line of a larger search area
+			real.Slot = 4096 - rapid.IntRange(0, 3).Draw(t, "segslot")
 		case where == "last":
 			real.Slot = last
 		default:
